@@ -44,11 +44,6 @@ func (h HelperContext) Block() (string, error) {
 // the helper, think the block inside of an "if" or "each"
 // statement, but with it's own context.
 func (h HelperContext) BlockWith(hc hctx.Context) (string, error) {
-	ctx, ok := hc.(*Context)
-	if !ok {
-		return "", fmt.Errorf("expected *Context, got %T", hc)
-	}
-
 	if h.block == nil {
 		return "", fmt.Errorf("no block defined")
 	}
@@ -57,7 +52,7 @@ func (h HelperContext) BlockWith(hc hctx.Context) (string, error) {
 	// (contentFor) is rendered again by later executions, possibly by
 	// several at once, and must not borrow the evaluator that defined it.
 	cc := *h.compiler
-	cc.ctx = ctx
+	cc.ctx = hc
 	cc.curStmt = nil
 
 	i, err := cc.evalBlockStatement(h.block)
